@@ -17,3 +17,8 @@ func useDefault(a, b *T) (bool, int, uint64) {
 	deriveDeepCopy(a, b)
 	return deriveEqual(a, b), deriveCompare(a, b), deriveHash(a)
 }
+
+// a nested derive call: the argument type of the outer call is only known after a first generation pass
+func sortedDefault(m map[string]int) []string { return deriveSort(deriveKeys(m)) }
+
+func minDefault(m map[string]int) string { return deriveMin(deriveKeys(m), "") }
